@@ -258,6 +258,9 @@ func GenPlan(prop string, seed uint64) *Plan {
 	p.Crypto = []string{"eddsa", "ecdsa", "bls12"}[g.weighted(60, 28, 12)]
 	p.Cache = pick(g, 0, 0, 1, 2, 3, 5, 8, 16, 64, 100)
 	p.SyncVerify = true
+	if (prop == "C09" && g.p(0.4)) || g.p(0.04) {
+		p.SyncVerify = false // votes verified in background goroutines, released by the scheduler in a seeded order
+	}
 	if prop == "C08" && p.Ruleset != "fasthotstuff" && g.p(0.4) {
 		p.Knobs = map[string]int{"aggqc": 1}
 	}
